@@ -2112,3 +2112,386 @@ Proof.
         -- rewrite Eo by exact Ne. apply Hlok; auto.
 Qed.
 End Steps3.
+
+Section Main.
+Variable count : Z.
+Hypothesis Hcount : 1 <= count.
+
+(* the regime: one round per fiber, or count <= 2 *)
+Definition regime (x : ist) : Prop := count <= 2 \/ SR x.
+
+Lemma regime_noser x t n k :
+  G count x -> regime x -> (t < nthr (base x))%nat ->
+  bot (stk (base x) t) = Some (BRet n k 0) -> ~ In t (pw x) -> n = O \/ noser x.
+Proof.
+  intros Gx [Hc|S] Ht Hb Hq.
+  - right. intros S HS.
+    pose proof (g_a _ _ Gx) as A.
+    destruct (g_serw _ _ A S HS) as (B1 & B2 & B3 & B4 & B5).
+    pose proof (g_nthr _ _ A) as Hn.
+    assert (NSt : S <> t).
+    { intros ->. destruct HS as (n' & k' & HS). rewrite Hb in HS. discriminate. }
+    destruct (Z.eq_dec count 1) as [C1|C1].
+    + rewrite C1 in Hn. change (Z.to_nat 1) with 1%nat in Hn. lia.
+    + assert (C2 : count = 2) by lia. rewrite C2 in Hn. change (Z.to_nat 2) with 2%nat in Hn.
+      destruct (pw x) as [|p l] eqn:Ep; [cbn in B3; lia|].
+      assert (Hp : In p (pw x)) by (rewrite Ep; left; reflexivity).
+      destruct (g_pw _ _ A p Hp) as (P1 & P2 & _).
+      assert (p <> S).
+      { intros ->. destruct HS as (n1 & k1 & H1). destruct P2 as (n2 & k2 & H2). congruence. }
+      assert (p <> t) by (intros Hpt; apply Hq; rewrite <- Hpt; left; reflexivity).
+      lia.
+  - left. pose proof (sr_bot _ S t _ Hb) as [H _]. exact H.
+Qed.
+
+Theorem g_step x t :
+  L1 count x -> G count x -> regime x -> status_of (base x) t = SReady -> G count (lstep x t).
+Proof.
+  intros Lx Gx Hreg Hst.
+  pose proof (ready_lt _ _ Hst) as Htn.
+  pose proof (g_local _ _ (g_m _ _ Gx) t) as L.
+  remember (stk (base x) t) as sg eqn:E. symmetry in E.
+  destruct L.
+  - (* done *) exfalso. unfold status_of in Hst. rewrite E in Hst. destruct (t <? nthr (base x))%nat; discriminate.
+  - eapply step_start; eauto.
+  - eapply step_fadd; eauto.
+  - eapply step_wsaving; eauto.
+  - eapply step_wdata; eauto.
+  - eapply step_wnext; eauto.
+  - eapply step_wxchg; eauto.
+  - eapply step_wlink; eauto.
+  - eapply step_wyread; eauto.
+  - (* YNext *) destruct H as [[-> _]|[-> P]].
+    + eapply step_wynext_switch; eauto.
+    + eapply step_wreturn; eauto. apply (regime_noser x t n k); auto.
+      * rewrite E. reflexivity.
+      * apply P.
+  - eapply step_wswread; eauto.
+  - eapply step_wswdone; eauto.
+  - eapply step_wmread; eauto.
+  - eapply step_wmflip; eauto.
+  - eapply step_wasleep; eauto.
+  - eapply step_wresume; eauto.
+  - eapply step_khead; eauto.
+  - (* KNext *)
+    destruct (nnext (mem (base x)) h) as [|nx] eqn:Hn.
+    + destruct (0 <? count - 1) eqn:Hc.
+      * eapply step_knext_spin; eauto.
+      * (* count = 1: nothing to collect *)
+        apply Z.ltb_ge in Hc.
+        assert (St : is_ser (stk (base x) t)) by (rewrite E; do 2 eexists; reflexivity).
+        destruct (g_serw _ _ (g_a _ _ Gx) t St) as (_ & _ & B3 & B4 & B5). rewrite E in B3, B4, B5. cbn [wcof] in B3, B4, B5.
+        eapply (serial_return_nowake count Hcount x t n k);
+          [exact Gx|rewrite E; reflexivity|rewrite E; cbn; tauto|rewrite E; reflexivity|rewrite E; exact I
+          |assumption|assumption|rewrite E; cbn [wcof]; lia|rewrite E].
+        cbn [kstep]. rewrite Hn. assert (Hc' : (0 <? count - 1) = false) by (apply Z.ltb_ge; lia). rewrite Hc'.
+        unfold kloop. assert (Hw : (wc <? count - 1) = false) by (apply Z.ltb_ge; lia). rewrite Hw.
+        rewrite ret_bret. reflexivity.
+    + eapply step_knext_some; eauto.
+  - eapply step_ksethead; eauto.
+  - eapply step_kdata; eauto.
+  - eapply step_kcopy; eauto.
+  - eapply step_kout; eauto.
+  - (* KState *)
+    destruct (fstate (mem (base x)) f =? ST_WAITING) eqn:Hf.
+    + apply Z.eqb_eq in Hf. eapply step_kstate_waiting; eauto.
+    + eapply (ksched_step count Hcount x t f wc n k); eauto; try reflexivity.
+      * left. split; [apply Z.eqb_neq; exact Hf|reflexivity].
+      * cbn [kstep]. rewrite Hf. reflexivity.
+      * rewrite lstep_chain, E. reflexivity.
+      * rewrite lstep_infl, E, Hf. reflexivity.
+      * rewrite lstep_pw, E, Hf. reflexivity.
+  - (* KReady *)
+    eapply (ksched_step count Hcount x t f wc n k); eauto; try reflexivity.
+    + rewrite lstep_chain, E. reflexivity.
+    + rewrite lstep_infl, E. reflexivity.
+    + rewrite lstep_pw, E. reflexivity.
+  - eapply step_kyread; eauto.
+  - (* YNext inside the pop loop *)
+    destruct (wc <? count - 1) eqn:Hc.
+    + eapply step_kynext_retry; eauto.
+    + apply Z.ltb_ge in Hc.
+      eapply (serial_return_nowake count Hcount x t n k);
+          [exact Gx|rewrite E; reflexivity|rewrite E; cbn; tauto|rewrite E; reflexivity|rewrite E; exact I
+          |assumption|assumption|rewrite E; cbn [wcof]; lia|rewrite E].
+      cbn [kstep]. cbn [Z.eqb orb ST_RUNNING ST_WAITING ST_DONE ST_SAVING Pos.eqb].
+      rewrite ret_kspin. assert (Hw : (wc <? count - 1) = false) by (apply Z.ltb_ge; lia). rewrite Hw. reflexivity.
+Qed.
+
+Lemma G_init rounds : length rounds = Z.to_nat count -> G count (iinit count rounds).
+Proof.
+  intros Hl.
+  assert (Nser : forall u, ~ is_ser (stk (base (iinit count rounds)) u)).
+  { intros u (n & k & H). cbn in H. discriminate. }
+  assert (Nwait : forall u, ~ is_wait (stk (base (iinit count rounds)) u)).
+  { intros u (n & k & H). cbn in H. discriminate. }
+  constructor.
+  - constructor.
+    + exact Hl.
+    + cbn. lia.
+    + intros S S' H. exfalso. exact (Nser S H).
+    + intros S H. exfalso. exact (Nser S H).
+    + intros _. cbn [pw iinit length base mem init kinit word]. rewrite Z.mod_0_l by lia. reflexivity.
+    + constructor.
+    + intros u [].
+    + intros u k _ H. cbn in H. injection H as <-. split; [exact Nser|]. cbn [iinit base mem init kinit word]. rewrite Z.div_0_l by lia. reflexivity.
+    + intros u H. exfalso. exact (Nwait u H).
+    + intros t k r [].
+    + intros i t k v H. destruct i; discriminate.
+    + intros u H. exfalso. exact (Nwait u H).
+    + intros _. reflexivity.
+  - constructor; cbn; auto.
+    + constructor; [intros []|constructor].
+    + intros nd [<-|[]]. discriminate.
+    + intros nd u [].
+    + constructor.
+    + intros f H. discriminate.
+  - constructor; cbn.
+    + intros u u' _ H. lia.
+    + intros u u' H. congruence.
+    + intros u u' H. exact H.
+    + intros u _ [H|[]]. lia.
+    + intros u H. congruence.
+  - constructor; cbn; auto.
+    + intros t. repeat split.
+    + intros u. constructor; [split; reflexivity|cbn; lia].
+Qed.
+
+Theorem ireach_G rounds x :
+  length rounds = Z.to_nat count -> (count <= 2 \/ Forall (fun r => r = 1%nat) rounds) ->
+  ireach count rounds x -> G count x.
+Proof.
+  intros Hl Hr R. induction R as [|x t R IH Hs]; [apply G_init; exact Hl|].
+  apply g_step; auto.
+  - eapply ireach_l1; eauto.
+  - destruct Hr as [Hc|F]; [left; exact Hc|right; eapply ireach_sr; eauto].
+Qed.
+End Main.
+
+Lemma filter_range {A} (p : A -> bool) : forall (l : list A) (lo c : nat),
+  (lo + c <= length l)%nat ->
+  (forall j a, (lo <= j < lo + c)%nat -> nth_error l j = Some a -> p a = true) ->
+  (c <= length (filter p l))%nat.
+Proof.
+  induction l as [|a l IH]; intros lo c Hl Hp; cbn in *; [lia|].
+  destruct lo as [|lo].
+  - destruct c as [|c]; [lia|]. rewrite (Hp O a) by (cbn; auto; lia). cbn.
+    apply le_n_S. apply (IH O c); [lia|]. intros j b Hj Hn. apply (Hp (S j) b); [lia|exact Hn].
+  - assert (c <= length (filter p l))%nat.
+    { apply (IH lo c); [lia|]. intros j b Hj Hn. apply (Hp (S j) b); [lia|exact Hn]. }
+    destruct (p a); cbn; lia.
+Qed.
+
+Lemma nodup_round (l : list (nat * nat * Z)) k :
+  NoDup (map fst l) -> NoDup (map (fun a => fst (fst a)) (filter (fun a => Nat.eqb (snd (fst a)) k) l)).
+Proof.
+  induction l as [|[[t k'] v] l IH]; intros N; cbn in *; [constructor|].
+  inversion N as [|? ? Hn Nl]; subst. destruct (Nat.eqb_spec k' k) as [->|Ne]; cbn; [|auto].
+  constructor; [|auto]. intros Hi. apply Hn. apply in_map_iff in Hi.
+  destruct Hi as [[[t' k2] v'] [Eq Hi]]. cbn in Eq. subst t'. apply filter_In in Hi. destruct Hi as [Hi Hk].
+  cbn in Hk. apply Nat.eqb_eq in Hk. subst k2. apply in_map_iff. exists (t, k, v'). auto.
+Qed.
+
+Section Final.
+Variable count : Z.
+Hypothesis Hcount : 1 <= count.
+
+(* round safety from the invariant *)
+Lemma round_safe_of_G x : L1 count x -> G count x -> round_safe_arrived count x /\ round_safe count x.
+Proof.
+  intros L Gx.
+  assert (RA : round_safe_arrived count x).
+  { intros t k [r H]. split; [apply nodup_round; apply L|].
+    pose proof (g_rets _ _ (g_a _ _ Gx) _ _ _ H) as Hk.
+    rewrite (l1_word _ _ L) in Hk.
+    destruct (l1_rets _ _ L _ _ _ H) as (v & Hv & _).
+    destruct (In_nth_error _ _ Hv) as [i Hi].
+    pose proof (g_arr _ _ (g_a _ _ Gx) _ _ _ _ Hi) as Hki.
+    assert (Hk1 : (1 <= k)%nat).
+    { assert (0 <= Z.of_nat i / count) by (apply Z.div_pos; lia). lia. }
+    unfold arrived_fibers. rewrite map_length.
+    assert (Hc : (Z.to_nat count <= length (filter (fun a => Nat.eqb (snd (fst a)) k) (arr x)))%nat).
+    { apply (filter_range _ (arr x) (Z.to_nat ((Z.of_nat k - 1) * count)) (Z.to_nat count)).
+      - nia.
+      - intros j [[t' k'] v'] Hj Hn. cbn. apply Nat.eqb_eq.
+        pose proof (g_arr _ _ (g_a _ _ Gx) _ _ _ _ Hn) as Hk'. apply Nat2Z.inj.
+        rewrite Hk'.
+        assert (Hjz : (Z.of_nat k - 1) * count <= Z.of_nat j < (Z.of_nat k - 1) * count + count) by nia.
+        assert (Hd : Z.of_nat j / count = Z.of_nat k - 1).
+        { symmetry. apply (Z.div_unique (Z.of_nat j) count (Z.of_nat k - 1) (Z.of_nat j - (Z.of_nat k - 1) * count)); lia. }
+        lia. }
+    lia. }
+  split; [exact RA|].
+  intros t k Hr. destruct (RA t k Hr) as [Nd Hl].
+  assert ((length (arrived_fibers x k) <= length (entered_fibers x k))%nat).
+  { apply NoDup_incl_length; [exact Nd|]. intros u Hu. unfold arrived_fibers in Hu.
+    apply in_map_iff in Hu. destruct Hu as [[[t' k'] v'] [Eq Hu]]. cbn in Eq. subst t'.
+    apply filter_In in Hu. destruct Hu as [Hu Hk]. cbn in Hk. apply Nat.eqb_eq in Hk. subst k'.
+    apply entered_in. apply (l1_ent _ _ L _ _ _ Hu). }
+  lia.
+Qed.
+
+(* ---- quiescence, one round per fiber ---- *)
+Definition quiescent (x : ist) : Prop := forall t, status_of (base x) t <> SReady.
+
+Lemma quiescent_shapes x : G count x -> quiescent x ->
+  forall u, (u < nthr (base x))%nat -> stk (base x) u = [] \/ (is_wait (stk (base x) u) /\ In u (pw x)).
+Proof.
+  intros Gx Hq u Hu. pose proof (g_local _ _ (g_m _ _ Gx) u) as L. specialize (Hq u).
+  unfold status_of in Hq. apply Nat.ltb_lt in Hu. rewrite Hu in Hq.
+  remember (stk (base x) u) as sg eqn:E.
+  destruct L; try (exfalso; apply Hq; reflexivity); [left; reflexivity|].
+  right. split; [do 2 eexists; reflexivity|].
+  destruct H as [(P1 & _)|(_ & _ & Pb & _)]; [exact P1|].
+  exfalso. apply Hq. cbn. rewrite Pb. reflexivity.
+Qed.
+
+(* finished fibers have returned (every fiber performs exactly one round) *)
+Record DR (x : ist) : Prop := {
+  dr_next : forall t n k, (t < nthr (base x))%nat -> bot (stk (base x) t) = Some (BNext n k) -> n = 1%nat;
+  dr_done : forall t, (t < nthr (base x))%nat -> bot (stk (base x) t) = None -> exists r, In (t, 1%nat, r) (rets x)
+}.
+
+Lemma dr_init rounds : Forall (fun r => r = 1%nat) rounds -> DR (iinit count rounds).
+Proof.
+  intros F. constructor; cbn.
+  - intros t n k Ht E. injection E as <- <-. rewrite Forall_forall in F. apply F. apply nth_In. exact Ht.
+  - intros t _ E. discriminate.
+Qed.
+
+Lemma dr_step x t : L1 count x -> SR x -> status_of (base x) t = SReady -> DR x -> DR (lstep x t).
+Proof.
+  intros L S Hs [D1 D2].
+  pose proof (lstep_cases count x t (l1_cnt _ _ L) (l1_slots _ _ L) (l1_shape _ _ L t)) as K.
+  cbv zeta in K. destruct K as (_ & _ & K).
+  pose proof (ready_lt _ _ Hs) as Ht.
+  assert (Eo : forall u, u <> t -> stk (base (lstep x t)) u = stk (base x) u).
+  { intros u N. rewrite lstep_erase. apply step_stk_other. exact N. }
+  assert (Hr : forall a, In a (rets x) -> In a (rets (lstep x t))).
+  { intros a Ha. destruct K as [(_ & _ & _ & _ & E3)|[(n & k & _ & _ & _ & _ & _ & E3)|[(_ & _ & _ & _ & _ & E3)|
+      [(n & _ & _ & _ & _ & _ & E3)|[(k & r & _ & _ & _ & E3 & _)|(n & k & r & _ & _ & _ & E3 & _)]]]]];
+      rewrite E3; try apply in_app_iff; auto. }
+  constructor; rewrite lstep_nthr.
+  - intros u n k Hu E. destruct (Nat.eq_dec u t) as [->|N]; [|rewrite Eo in E by exact N; eauto].
+    destruct K as [(B & _)|[(n' & k' & _ & B' & _)|[(_ & B' & _)|[(n' & _ & B' & _)|[(k' & r & _ & B' & _)|(n' & k' & r & _ & B' & _)]]]]];
+      try (rewrite B' in E; discriminate). rewrite B in E. eauto.
+  - intros u Hu E. destruct (Nat.eq_dec u t) as [->|N].
+    + destruct K as [(B & _)|[(n' & k' & _ & B' & _)|[(B & _ & _)|[(n' & _ & B' & _)|[(k' & r & B & _ & _ & E3 & _)|(n' & k' & r & _ & B' & _)]]]]];
+        try (rewrite B' in E; discriminate).
+      * rewrite B in E. destruct (D2 t Hu E) as [r Hr']. exists r. auto.
+      * exfalso. pose proof (D1 t _ _ Hu B). discriminate.
+      * pose proof (sr_bot _ S t _ B) as [_ ->]. exists r. rewrite E3. apply in_app_iff. right. left. reflexivity.
+    + rewrite Eo in E by exact N. destruct (D2 u Hu E) as [r Hr']. exists r. auto.
+Qed.
+
+Lemma ireach_dr rounds x :
+  Forall (fun r => r = 1%nat) rounds -> ireach count rounds x -> DR x.
+Proof.
+  intros F R. induction R as [|x t R IH Hs]; [apply dr_init; exact F|].
+  apply dr_step; auto; [eapply ireach_l1; eauto|eapply ireach_sr; eauto].
+Qed.
+
+Lemma stk_nil_bot (sg : stack bc) : sg = [] -> bot sg = None.
+Proof. intros ->. reflexivity. Qed.
+
+Theorem single_round_quiescent rounds x :
+  length rounds = Z.to_nat count -> Forall (fun r => r = 1%nat) rounds ->
+  ireach count rounds x -> quiescent x ->
+  (forall t, (t < length rounds)%nat -> returned x t 1) /\
+  (exists t, In (t, 1%nat, 1) (rets x)).
+Proof.
+  intros Hl F R Hq.
+  pose proof (ireach_l1 _ _ _ R) as L. pose proof (ireach_sr _ _ _ F R) as S.
+  pose proof (ireach_dr _ _ F R) as D. pose proof (ireach_nthr _ _ _ R) as Nt.
+  assert (Gx : G count x) by (apply (ireach_G count Hcount rounds); auto).
+  pose proof (g_a _ _ Gx) as A.
+  pose proof (quiescent_shapes x Gx Hq) as Sh. rewrite Nt in Sh.
+  assert (Ns : noser x).
+  { intros S0 HS. destruct (g_serw _ _ A S0 HS) as (B1 & _). rewrite Nt in B1.
+    destruct (Sh S0 B1) as [E|[(n & k & E) _]]; destruct HS as (n' & k' & HS); [rewrite E in HS; discriminate|congruence]. }
+  assert (Hpw : pw x = []).
+  { destruct (pw x) as [|p l] eqn:Ep; [reflexivity|exfalso].
+    assert (Hp : In p (pw x)) by (rewrite Ep; left; reflexivity).
+    destruct (g_pw _ _ A p Hp) as (P1 & (n & k & P2) & _ & P4).
+    pose proof (sr_bot _ S p _ P2) as [_ Hk]. specialize (P4 Ns). unfold rnd in P4. rewrite P2 in P4. cbn in P4. subst k.
+    assert (Hw : word (mem (base x)) 0%nat < count).
+    { pose proof (g_word _ _ A). assert (word (mem (base x)) 0%nat / count = 0) by lia.
+      apply Z.div_small_iff in H0; lia. }
+    assert (Hall : forall u, (u < length rounds)%nat -> In u (pw x)).
+    { intros u Hu. destruct (Sh u Hu) as [E|[_ Hi]]; [|rewrite Ep; exact Hi]. exfalso.
+      rewrite <- Nt in Hu. destruct (dr_done _ D u Hu (stk_nil_bot _ E)) as [r Hr].
+      pose proof (g_rets _ _ A _ _ _ Hr). lia. }
+    assert (Hlen : (length (seq 0 (length rounds)) <= length (pw x))%nat).
+    { apply NoDup_incl_length; [apply seq_NoDup|]. intros u Hu. apply in_seq in Hu. apply Hall. lia. }
+    rewrite seq_length in Hlen. pose proof (g_noser _ _ A Ns) as Hm.
+    rewrite Z.mod_small in Hm by (pose proof (g_word _ _ A); lia). lia. }
+  assert (Hdone : forall t, (t < length rounds)%nat -> stk (base x) t = []).
+  { intros t Ht. destruct (Sh t Ht) as [E|[_ Hi]]; [exact E|]. rewrite Hpw in Hi. destruct Hi. }
+  assert (Hret : forall t, (t < length rounds)%nat -> returned x t 1).
+  { intros t Ht. rewrite <- Nt in Ht. apply (dr_done _ D t Ht). apply stk_nil_bot. apply Hdone. rewrite <- Nt. exact Ht. }
+  split; [exact Hret|].
+  (* the fiber that fetched count-1 *)
+  destruct (single_round_facts count rounds x Hcount Hl F R) as (_ & Hle & _ & _).
+  assert (Hge : (length rounds <= length (arr x))%nat).
+  { assert (Hin : incl (seq 0 (length rounds)) (map (fun a => fst (fst a)) (arr x))).
+    { intros t Ht. apply in_seq in Ht. destruct (Hret t ltac:(lia)) as [r Hr].
+      destruct (l1_rets _ _ L _ _ _ Hr) as (v & Hv & _). apply in_map_iff. exists (t, 1%nat, v). auto. }
+    pose proof (NoDup_incl_length (seq_NoDup (length rounds) 0) Hin) as H. rewrite seq_length, map_length in H. exact H. }
+  assert (Hidx : (Z.to_nat (count - 1) < length (arr x))%nat) by lia.
+  destruct (nth_error (arr x) (Z.to_nat (count - 1))) as [[[t k] v]|] eqn:En; [|apply nth_error_None in En; lia].
+  pose proof (l1_tick _ _ L _ _ _ _ En) as Hv. rewrite Z2Nat.id in Hv by lia. subst v.
+  pose proof (nth_error_In _ _ En) as Hin.
+  destruct (sr_arr _ S _ _ _ Hin) as [-> Htl]. rewrite Nt in Htl.
+  destruct (Hret t Htl) as [r Hr]. exists t.
+  destruct (l1_rets _ _ L _ _ _ Hr) as (v' & Hv' & ->).
+  assert (v' = count - 1).
+  { pose proof (l1_nodup_arr _ _ L) as Nd.
+    destruct (In_nth_error _ _ Hv') as [i' Hi'].
+    assert (i' = Z.to_nat (count - 1)).
+    { eapply (NoDup_nth_error (map fst (arr x))); eauto.
+      - rewrite map_length. apply nth_error_Some. rewrite Hi'. discriminate.
+      - rewrite !nth_error_map, Hi', En. reflexivity. }
+    subst i'. congruence. }
+  subst v'. unfold sbit in Hr. replace (count - 1 + 1) with count in Hr by lia. rewrite Z.mod_same in Hr by lia. exact Hr.
+Qed.
+
+(* one serial fiber per round (regime) *)
+Lemma one_serial_round x t t' k :
+  L1 count x -> G count x -> In (t, k, 1) (rets x) -> In (t', k, 1) (rets x) -> t = t'.
+Proof.
+  intros L Gx H H'.
+  destruct (l1_rets _ _ L _ _ _ H) as (v & Hv & Hb). destruct (l1_rets _ _ L _ _ _ H') as (v' & Hv' & Hb').
+  destruct (In_nth_error _ _ Hv) as [i Hi]. destruct (In_nth_error _ _ Hv') as [i' Hi'].
+  pose proof (l1_tick _ _ L _ _ _ _ Hi) as ->. pose proof (l1_tick _ _ L _ _ _ _ Hi') as ->.
+  pose proof (g_arr _ _ (g_a _ _ Gx) _ _ _ _ Hi) as Hk. pose proof (g_arr _ _ (g_a _ _ Gx) _ _ _ _ Hi') as Hk'.
+  destruct (sbit_cases count (Z.of_nat i)) as [[_ Hm]|[Hm _]]; [|congruence].
+  destruct (sbit_cases count (Z.of_nat i')) as [[_ Hm']|[Hm' _]]; [|congruence].
+  assert (Hlast : forall j, 0 <= j -> (j + 1) mod count = 0 -> j = count * (j / count) + (count - 1)).
+  { intros j Hj Hmj.
+    pose proof (Z.div_mod (j + 1) count ltac:(lia)) as E. rewrite Hmj in E.
+    pose proof (Z.div_mod j count ltac:(lia)) as F. pose proof (Z.mod_pos_bound j count ltac:(lia)) as B.
+    set (q := (j + 1) / count) in *. set (a := j / count) in *. set (r := j mod count) in *.
+    assert (count * (q - a) = r + 1) by lia.
+    assert (q - a = 1) by nia. nia. }
+  assert (Z.of_nat i = Z.of_nat i').
+  { rewrite (Hlast (Z.of_nat i)) by (auto; lia). rewrite (Hlast (Z.of_nat i')) by (auto; lia).
+    assert (Z.of_nat i / count = Z.of_nat i' / count) by lia. congruence. }
+  assert (i = i') by lia. subst i'. congruence.
+Qed.
+
+(* single consumer (regime): at most one fiber is inside the pop loop *)
+Lemma pop_loop_ser s t : Shape count (stk s t) -> in_pop_loop s t -> is_ser (stk s t).
+Proof.
+  unfold in_pop_loop. intros Sh H. destruct Sh as [|n|n k|f n k Hf|y n k Hy|f n k Hf|y wc n k Hy]; try contradiction.
+  - destruct Hf; contradiction.
+  - destruct Hy; contradiction.
+  - do 2 eexists. reflexivity.
+  - do 2 eexists. destruct Hy; reflexivity.
+Qed.
+
+Lemma single_consumer_of_G x t u :
+  L1 count x -> G count x -> in_pop_loop (base x) t -> in_pop_loop (base x) u -> t = u.
+Proof.
+  intros L Gx Ht Hu. apply (g_ser1 _ _ (g_a _ _ Gx)); apply pop_loop_ser; auto; apply L.
+Qed.
+End Final.
